@@ -17,6 +17,13 @@ func timeVal(ext *Term) Value { return &Struct{F: []Value{BVC(0, 64), ext, Ptr{}
 func timeExt(v Value) *Term   { return v.(*Struct).F[1].(*Term) }
 
 func (e *Engine) now(st *State) *Term {
+	if e.Cfg.ConcreteClock {
+		// deterministic clock: distinct instants 7 ms apart (obligations whose subject is not time)
+		st.ClockN++
+		t := BVC(uint64(1700000000000000000+int64(st.ClockN)*7000000), 64)
+		st.Clock = t
+		return t
+	}
 	t := FreshVar("now", SBV, 64)
 	st.Nondets = append(st.Nondets, NondetRec{Tag: "time.Now", Kind: "int", Term: t})
 	// positive, bounded (no overflow in small arithmetic): 1 <= t < 2^62
